@@ -12,7 +12,8 @@ use std::panic::{self, AssertUnwindSafe};
 use std::rc::Rc;
 
 fn cstatus(s: ChronyClockStatus) -> i64 {
-    match s { ChronyClockStatus::Unknown => 0, ChronyClockStatus::Synchronized => 1, ChronyClockStatus::FreeRunning => 2 }
+    #[allow(unreachable_patterns)]
+    match s { ChronyClockStatus::Unknown => 0, ChronyClockStatus::Synchronized => 1, ChronyClockStatus::FreeRunning => 2, _ => 99 }
 }
 
 fn trk_of(f: &[i64]) -> (Trk, i64) {
@@ -118,6 +119,11 @@ pub fn gen_trk(rng: &mut Rng) -> (Trk, i64) {
     let off = if rng.chance(1, 10) { 0 } else if rng.chance(1, 5) { cf(rng, 3, 31, sign) } else { cf(rng, -30, 2, sign) };
     let disp = if rng.chance(1, 12) { 0 } else { cf(rng, -34, 2, 1) };
     let delay = if rng.chance(1, 12) { 0 } else { cf(rng, -34, 2, 1) };
+    // chronyd's own round numbers (its start-up defaults are root delay = root dispersion = 1.0 s): exactly representable
+    // values, alone and in conjunction
+    let round = [0x0480_0000u32, 0x0280_0000, 0x0680_0000, 0x0880_0000, 0x04C0_0000]; // 1.0, 0.5, 2.0, 4.0, 1.5 (coefficient 2^23 or 3*2^22, exponent field 2, 1, 3, 4, 2)
+    let (disp, delay) = match rng.below(24) { 0 => { let w = rng.pick(&round); (w, w) }, 1 => (rng.pick(&round), delay), 2 => (disp, rng.pick(&round)), _ => (disp, delay) };
+    let off = if rng.chance(1, 40) { rng.pick(&round) } else { off };
     let interval = match rng.below(8) {
         0 => 0,
         1 => cf(rng, 0, 12, -1),              // negative interval
